@@ -330,27 +330,36 @@ func buildStreamZ(d map[string]any, r *rec) stream.Stream[int] {
 	panic("harness: bad stream pipeline node " + d["t"].(string))
 }
 
-// runsTaken adapts Stream[Stream[int]] to Stream[[]int] by consuming each run as the harness consumer does.
+// runsTaken adapts Stream[Stream[int]] to Stream[[]int] by consuming each run as the harness consumer
+// does. A consumer that gets an error from an inner Next keeps the run and what it has taken so far,
+// and continues with the same run when it is called again.
 type runsTaken struct {
-	inner stream.Stream[stream.Stream[int]]
-	take  any
+	inner   stream.Stream[stream.Stream[int]]
+	take    any
+	cur     stream.Stream[int]
+	partial []int
 }
 
 func (s *runsTaken) Next(ctx context.Context) ([]int, error) {
-	run, err := s.inner.Next(ctx)
-	if err != nil {
-		return nil, err
+	if s.cur == nil {
+		run, err := s.inner.Next(ctx)
+		if err != nil {
+			return nil, err
+		}
+		s.cur = run
+		s.partial = []int{}
 	}
-	out := []int{}
-	for s.take == nil || len(out) < num(s.take) {
-		x, err := run.Next(ctx)
+	for s.take == nil || len(s.partial) < num(s.take) {
+		x, err := s.cur.Next(ctx)
 		if err == stream.End {
 			break
 		} else if err != nil {
 			return nil, err
 		}
-		out = append(out, x)
+		s.partial = append(s.partial, x)
 	}
+	out := s.partial
+	s.cur, s.partial = nil, nil
 	return out, nil
 }
 func (s *runsTaken) Close() { s.inner.Close() }
@@ -425,7 +434,11 @@ func runPipes(c *Case) *Obs {
 						}
 						res = []any{"val", l}
 					case "last":
-						res = []any{"val", iterator.Last(itZ, num(rd[1]))}
+						l := iterator.Last(itZ, num(rd[1]))
+						if l == nil {
+							l = []int{}
+						}
+						res = []any{"val", l}
 					case "one":
 						x, ok := iterator.One(itZ)
 						if ok {
@@ -514,6 +527,9 @@ func runPipes(c *Case) *Obs {
 					if err != nil {
 						res = errCode(err)
 					} else {
+						if l == nil {
+							l = []int{}
+						}
 						res = []any{"val", l}
 					}
 				case "one":
